@@ -10,8 +10,8 @@ import time
 from . import tlc
 
 VERIF = tlc.VERIF
-EVIDENCE = os.path.join(VERIF, "evidence")
-REPLAYS = os.path.join(VERIF, "replays")
+EVIDENCE = os.environ.get("VT_EVIDENCE_DIR") or os.path.join(VERIF, "evidence")   # overridden only by tools/mutcheck
+REPLAYS = os.environ.get("VT_REPLAY_DIR") or os.path.join(VERIF, "replays")
 FINDINGS = os.path.join(VERIF, "known_findings.json")
 REPO = os.environ.get("VT_REPO", "/repo")
 
